@@ -14,6 +14,26 @@ variable (P : Prog)
 def Wrong (e : Expr) (ρ : Env) (w : World) : Prop := ∃ s w', Ev P e ρ w (.fail (.stuck s) w')
 def WrongL (es : List Expr) (ρ : Env) (w : World) : Prop := ∃ s w', EvL P es ρ w (.fail (.stuck s) w')
 
+theorem wrong_of_stuck {P : Prog} {e : Expr} {ρ : Env} {w : World} {y : Res Val} (h : Ev P e ρ w y) (hs : Stuck y) :
+    Wrong P e ρ w := by
+  cases y with
+  | ok v w' => simp at hs
+  | fail f w' =>
+    cases f with
+    | stuck s => exact ⟨s, w', h⟩
+    | panic k => simp [Stuck] at hs
+    | fuel => simp [Stuck] at hs
+
+theorem and_true_res (b : Val) (w : World) :
+    (∃ y, b = .bool y ∧ exceptRes (binop .and (.bool true) b) w = .ok b w) ∨
+      Stuck (exceptRes (binop .and (.bool true) b) w) := by
+  cases b <;> simp [binop, exceptRes]
+
+theorem or_false_res (b : Val) (w : World) :
+    (∃ y, b = .bool y ∧ exceptRes (binop .or (.bool false) b) w = .ok b w) ∨
+      Stuck (exceptRes (binop .or (.bool false) b) w) := by
+  cases b <;> simp [binop, exceptRes]
+
 def BW (e : Expr) : Prop :=
   ∀ (n N : Nat) (D : List String) (ρ ρ' : Env) (w : World) (r : Res Val),
     Hyp D e n N → Agree D ρ ρ' →
